@@ -130,8 +130,10 @@ class ReuseHistory(Engine):
         from sim.engines.hashseed import ENGINE as HASHSEED
         from sim.engines.write_faults import ENGINE as WRITE_FAULTS, FAULT_KINDS
         base = HASHSEED._gen_pipeline(rng)  # pylint: disable=protected-access
+        toggles = [arg for arg in base["extra_args"] if arg in ("--clusterhmmer", "--fullhmmer", "--pfam2go")]
         scenario: Dict[str, Any] = {"records": base["records"], "hits": base["hits"], "domain_hits": base["domain_hits"],
-                                    "domain_lengths": base["domain_lengths"], "fungi": rng.random() < 0.25}
+                                    "domain_lengths": base["domain_lengths"], "fungi": rng.random() < 0.25,
+                                    "toggles": toggles}
         # TTA only looks at regions of GC rich records; plant some TTA codons in frame
         for record in scenario["records"]:
             seq = list(record["seq"])
@@ -180,6 +182,9 @@ class ReuseHistory(Engine):
                                  "index_rank": rng.randrange(1000), "kind": rng.choice(FAULT_KINDS),
                                  "poison": rng.choice(["set", "bytes", "object"]), "depth": 0}
             step["options"] = copy.deepcopy(options)
+            # which analyses are requested is not a setting of the stored results: a reuse run that does not
+            # ask for an analysis again keeps (regenerates and re-saves) what is stored
+            step["toggles_off"] = bool(toggles) and rng.random() < 0.35
             steps.append(step)
         scenario["steps"] = steps
         return scenario
@@ -195,6 +200,10 @@ class ReuseHistory(Engine):
         if scenario.get("fungi"):
             cand = copy.deepcopy(scenario)
             cand["fungi"] = False
+            yield cand
+        for i, toggle in enumerate(scenario.get("toggles", [])):
+            cand = copy.deepcopy(scenario)
+            del cand["toggles"][i]
             yield cand
         if len(scenario["records"]) > 1:
             for i in range(len(scenario["records"])):
@@ -218,6 +227,7 @@ class ReuseHistory(Engine):
     def sample_view(self, scenario: Dict[str, Any], result: RunResult) -> Any:
         return {"records": [[r["id"], len(r["seq"]), len(r["genes"]), r.get("circular")] for r in scenario["records"]],
                 "hits": len(scenario["hits"]), "sideload": bool(scenario.get("sideload")), "fungi": scenario["fungi"],
+                "toggles": scenario.get("toggles"),
                 "steps": [{k: v for k, v in step.items() if k != "salt"} for step in scenario["steps"]],
                 "trace": result.get("trace_head")}
 
@@ -255,6 +265,8 @@ class _History:
         args = P.base_args(outdir)
         args.remove("--enable-tta")
         args += option_args(step["options"], sc["fungi"])
+        if not step.get("toggles_off"):
+            args += list(sc.get("toggles", []))
         if sc.get("sideload") and fresh_input:
             args += ["--sideload", os.path.join(work, "sideload.json")]
         inv = {"args": args, "salt": step.get("salt", 0), "hits": sc["hits"], "domain_hits": sc["domain_hits"],
@@ -319,6 +331,8 @@ class _History:
                     self._judge_schema(step, result, regen, state)
                     break
                 changed = [key for key in step["options"] if step["options"][key] != good_options[key]]
+                if changed == ["tta"] and not step["options"]["tta"]:
+                    changed = []      # TTA no longer requested: the stored TTA results stay as they are
                 if not changed:
                     new_state = self._judge_unchanged(label, result, outdir, state, regen, runs)
                 else:
